@@ -418,6 +418,14 @@ def r175(ctx):
             hs_ = _halfspace(n.test)
             r = _offset(hs_, {"c": 1, "T": -1})
             r_node = n
+            started_form = False
+            if r is None and _offset(hs_, {"c": 1, "T": -1, "W": 1, "t": -1}) is not None:
+                # refuse iff cstep + (workers - toinitiate) >= tsteps + k: the workers already started are counted
+                r = _offset(hs_, {"c": 1, "T": -1, "W": 1, "t": -1})
+                started_form = True
+            elif r == 0:
+                ctx.bad(rid, n, "initiate() refuses to start a worker only when no step is left (cstep >= tsteps) and does not count the workers it has already started: at a (re)start with fewer remaining steps than workers every worker is started, tsteps - cstep results are consumed and workers - (tsteps - cstep) jobs are still in flight when the run ends - a finished run's restart.toml lists jobs in flight",
+                        construct="initiate refusal ignores the workers already started")
             if r is None and hs_ is not None and hs_.get("c") == 1 and hs_.get("T") == -1 and hs_.get("W", 0) != 0 and set(hs_) <= {"c", "T", "W", 1}:
                 # the refusal depends on the number of workers: refuse iff cstep + w*workers >= tsteps - k
                 w_ = hs_.get("W", 0)
@@ -434,10 +442,12 @@ def r175(ctx):
     r = -r
     # True iff t + z0 >= 0 <=> t >= -z0
     z = -z
-    if r != 0:
-        ctx.bad(rid, r_node, f"initiate() refuses to start workers iff cstep >= tsteps + ({r}): " + ("jobs are started although no step remains - they are still in flight when the run ends" if r > 0 else "no worker is started although steps remain"), construct="initiate refusal bound " + short(r_node.test, 40))
+    if r == 0 and started_form:
+        ctx.ok(rid, r_node, "initiate() refuses exactly when cstep + (workers already started) >= tsteps: min(workers, tsteps - cstep) jobs are started, one per result that will be consumed")
+    elif r != 0:
+        ctx.bad(rid, r_node, f"initiate() refuses to start workers iff cstep{' + started workers' if started_form else ''} >= tsteps + ({r}): " + ("jobs are started although no step remains - they are still in flight when the run ends" if r > 0 else "no worker is started although steps remain"), construct="initiate refusal bound " + short(r_node.test, 40))
     else:
-        ctx.ok(rid, r_node, "initiate() refuses exactly when cstep >= tsteps")
+        pass  # the plain form `cstep >= tsteps` was reported above (it ignores the workers already started)
     n_init = dict(i0)
     n_init[1] = n_init.get(1, 0) - z
     n_init = {k: v for k, v in n_init.items() if v != 0}
@@ -772,6 +782,8 @@ def run(ctx):
 
 
 VARIANTS = [
+    B("c17-initiate-starts-every-worker-while-a-step-is-left", REPEX, "        if not self.cstep + (self.workers - self.toinitiate) < self.tsteps:\n            return False", "        if not self.cstep < self.tsteps:\n            return False", "R-17.5", control=True, why="pre-fix F17.2"),
+    K("c17-keep-initiate-refusal-respelled", REPEX, "        if not self.cstep + (self.workers - self.toinitiate) < self.tsteps:\n            return False", "        started = self.workers - self.toinitiate\n        if self.cstep + started >= self.tsteps:\n            return False"),
     K("c17-keep-loop-verdict-in-a-local", REPEX, "        if self.printing() and self.cstep <= self.tsteps:\n            logger.info(f\"------- infinity {self.cstep:5.0f} START -------\")\n            logger.info(\"date: \" + datetime.now().strftime(DATE_FORMAT))\n\n        return self.cstep <= self.tsteps\n", "        within_steps = self.cstep <= self.tsteps\n        if self.printing() and within_steps:\n            logger.info(f\"------- infinity {self.cstep:5.0f} START -------\")\n            logger.info(\"date: \" + datetime.now().strftime(DATE_FORMAT))\n\n        return within_steps\n", why="refactoring r5repex"),
     K("c17-keep-loop-verdict-taken-before-the-advance", REPEX, "        self.cstep += 1\n\n        if self.printing() and self.cstep <= self.tsteps:", "        within_steps = self.cstep <= self.tsteps\n        self.cstep += 1\n\n        if self.printing() and self.cstep <= self.tsteps:", also=[(REPEX, "        return self.cstep <= self.tsteps\n", "        return within_steps\n")], why="computed before the advance: loop() still leaves at the top when cstep >= tsteps, so the number of cycles is unchanged (min of the two bounds)"),
     B("c17-loop-commits-the-advanced-counter", REPEX, "        return self.cstep <= self.tsteps\n", "        self.write_toml()\n\n        return self.cstep <= self.tsteps\n", "R-17.12", control=True, why="seeded C17_n"),
@@ -798,8 +810,8 @@ VARIANTS = [
     B("c17-loop-return-strict", REPEX, "        return self.cstep <= self.tsteps\n", "        return self.cstep < self.tsteps\n", "R-17.5"),
     B("c17-loop-exit-late", REPEX, "        if self.cstep >= self.tsteps:\n            # should probably", "        if self.cstep > self.tsteps:\n            # should probably", "R-17.5", also=[(REPEX, "        return self.cstep <= self.tsteps\n", "        return self.cstep <= self.tsteps + 1\n")]),
     B("c17-initiate-count-strict", REPEX, "        return self.toinitiate >= 0\n", "        return self.toinitiate > 0\n", "R-17.5"),
-    B("c17-initiate-refusal-counts-workers", REPEX, "        if not self.cstep < self.tsteps:\n            return False", "        if not self.cstep + self.workers < self.tsteps:\n            return False", "R-17.5", why="seeded C17_h"),
-    B("c17-initiate-refusal-loose", REPEX, "        if not self.cstep < self.tsteps:\n            return False", "        if not self.cstep <= self.tsteps:\n            return False", "R-17.5"),
+    B("c17-initiate-refusal-counts-workers", REPEX, "        if not self.cstep + (self.workers - self.toinitiate) < self.tsteps:\n            return False", "        if not self.cstep + self.workers < self.tsteps:\n            return False", "R-17.5", why="seeded C17_h"),
+    B("c17-initiate-refusal-loose", REPEX, "        if not self.cstep + (self.workers - self.toinitiate) < self.tsteps:\n            return False", "        if not self.cstep + (self.workers - self.toinitiate) <= self.tsteps:\n            return False", "R-17.5"),
     K("c17-keep-submit-guard-flipped", SCHED, "        if state.cstep + state.workers <= state.tsteps:", "        if state.tsteps >= state.workers + state.cstep:"),
     K("c17-keep-submit-guard-strict-plus-one", SCHED, "        if state.cstep + state.workers <= state.tsteps:", "        if state.cstep + state.workers < state.tsteps + 1:"),
     K("c17-keep-loop-exit-equivalent", REPEX, "        if self.cstep >= self.tsteps:\n            # should probably", "        if not self.cstep < self.tsteps:\n            # should probably"),
